@@ -198,10 +198,12 @@ Definition skip_decl (z : zst) : zst :=
   match z with
   | (s, l) =>
       if hd_is is_lp (bef s) then
-        match skip_decl_scan [] l with
-        | Some (acc, l') => (set_bef s (acc ++ bef s), l')
-        | None => z
-        end
+        if hd_is is_name l then z      (* tok->varId() != 0 : every TId is a variable (fix 7d6f057) *)
+        else
+          match skip_decl_scan [] l with
+          | Some (acc, l') => (set_bef s (acc ++ bef s), l')
+          | None => z
+          end
       else z
   end.
 
@@ -814,16 +816,15 @@ Fixpoint wf (e : expr) : bool :=
   | EMem _ _ a _ | EPar _ a => wf a
   end.
 
-(* declaration-like token patterns that compileTerm treats specially (skipDecl; "X ) ( name ) =");
-   [decl_like l = false] says they do not occur *)
+(* the declaration-like token pattern that compileTerm treats specially ("X ) ( name ) =", taken for a function
+   pointer declaration when the operand stack holds only that name and depth is 0);
+   [decl_like l = false] says it does not occur *)
 Fixpoint decl_like_from (b l : list ptok) : bool :=
   match l with
   | [] => false
   | t :: r =>
       (match snd t with
-       | TId _ =>
-           (hd_is is_lp b && match skip_decl_scan [] l with Some (_ :: _, _) => true | _ => false end)
-           || fnptr_pattern (st0 b, l)
+       | TId _ => fnptr_pattern (st0 b, l)
        | _ => false
        end)
       || decl_like_from (t :: b) r
